@@ -25,8 +25,9 @@ def main():
         cases = []
         names = ["weight+1", "degree+1", "drop_node_from_listing", "flip_ok"] + ["drop_event", "swap_events"] * 5
         for name in names:
-            t = copy.deepcopy(rng.choice([x for x in traces if len(x) >= 6]))
-            idx = [i for i, e in enumerate(t) if e["st"][0][1]["edges"] and i >= 2]
+            t = copy.deepcopy(rng.choice([x for x in traces if len(x) >= 6 and sum(1 for e in x if "q" in e) >= 3]))
+            idx = [i for i, e in enumerate(t) if e["st"][0][1]["edges"] and i >= 2 and
+                   (name not in ("degree+1", "drop_node_from_listing") or "q" in e)]
             if not idx:
                 continue
             i = rng.choice(idx)
@@ -46,7 +47,7 @@ def main():
                     continue
                 t[j], t[j - 1] = t[j - 1], t[j]
             elif name == "degree+1":
-                rs = [r for r in t[i]["q"]["bynode"] if "deg" in r]
+                rs = [r for r in t[i].get("q", {}).get("bynode", []) if "deg" in r]
                 if not rs:
                     continue
                 rs[0]["deg"] += 1
